@@ -108,6 +108,8 @@ SER = "grin_core::ser::"
 
 
 def run(c):
+    import r9
+    c.r9("C11")
     c.r4("decoders-p2p", "grin_p2p", P2P_ROOTS, FORBID, ALLOW, floor_roots=6, floor_reach=300, auto=r4.auto_discharge,
          desc="p2p codec / message decoders: no unjustified panic-capable construct or wire-sized allocation reachable")
     c.r4("decoders-core", "grin_core", CORE_ROOTS, FORBID, ALLOW, floor_roots=8, floor_reach=40, auto=r4.auto_discharge,
